@@ -28,7 +28,7 @@ import os
 import numpy as np
 
 from sa.core import AnalysisError, Report
-from sa.ival import Fmt, Domain, evaluate, Unsupported, LIBM_SLACK
+from sa.ival import Fmt, Domain, ErrDomain, evaluate, Unsupported, LIBM_SLACK
 from sa.boxes import refine, Budget
 from ir.frontend import load_package, expand
 from ir.normal import Importer, sym, subst, T, Unmodelled
@@ -207,6 +207,119 @@ def make_judge(name, line, tre, tim, var, fmt, dom, delta):
     return judge
 
 
+ERR_BOUND_U = 64.0   # forward error bound per component proved on boxes, in units of u = 2**-p
+POINT_ULP = 16.0     # the property's hard bound, used at single points where the forward bound is not provable
+
+
+def make_err_judge(name, line, tre, tim, var, fmt, region, counters):
+    """R1.2: forward error analysis of both components on boxes; exact evaluation against the reference at single points."""
+    spec = LINES[line]
+    f = ORACLE[name]
+    edom = ErrDomain(fmt)
+    pdom = Domain(fmt, slack=0)
+    L = LD(fmt.largest)
+
+    def ref_at(t, side=None, tsign=None):
+        tf = t
+        tl = t.astype(LD)
+        if tsign is not None:
+            tl = np.where(tl == 0, LD(tsign), tl)
+            tf = np.where(tf == 0, fmt.ft(tsign), tf)
+        if spec[0] == "axis":
+            c = np.full(tl.shape, LD(spec[2] if side is None else side))
+            re, im = (tl, c) if var == "x" else (c, tl)
+        elif spec[0] == "ray":
+            with np.errstate(all="ignore"):
+                re, im = tl, (fmt.ft(spec[1]) * tf).astype(LD)
+        else:
+            re, im = tl, (tl if spec[1] == 1 else -tl)
+        z = np.empty(tl.shape, dtype=CLD)
+        z.real = re
+        z.imag = im
+        with np.errstate(all="ignore"):
+            return f(z)
+
+    def judge(l, h):
+        lo, hi = fmt.from_ord(l[:, 0]), fmt.from_ord(h[:, 0])
+        shp = lo.shape
+        point = l[:, 0] == h[:, 0]
+        in_region = np.array([region((int(a),), (int(b),)) is not None for a, b in zip(l[:, 0], h[:, 0])]) if region is not None else np.zeros(shp, bool)
+
+        def env_for(dom):
+            env = {var: dom.box(lo, hi)}
+            if spec[0] == "axis":
+                env["x" if var == "y" else "y"] = dom.const(spec[2])
+            return env
+
+        memo = {}
+        env = env_for(edom)
+        ok = np.ones(shp, bool)
+        tots = []
+        for t in (tre, tim):
+            if t is None:
+                continue
+            R = evaluate(t, env, edom, memo)
+            rlo = np.broadcast_to(R.lo, shp).astype(LD)
+            rhi = np.broadcast_to(R.hi, shp).astype(LD)
+            rel = np.broadcast_to(0.0 if R.rel is None else R.rel, shp)
+            abe = np.broadcast_to(LD(0.0) if R.abe is None else R.abe, shp)
+            with np.errstate(all="ignore"):
+                rmin = np.where((rlo <= 0) & (rhi >= 0), LD(0.0), np.minimum(np.abs(rlo), np.abs(rhi)))
+                tot = rel + np.where(abe <= 4 * edom.eta, 0.0, (abe / rmin).astype(np.float64))
+                tot = np.where(np.isnan(tot), 1e30, tot)
+                fin = np.isfinite(rlo) & np.isfinite(rhi)
+            tots.append(tot)
+            ok &= (tot <= ERR_BOUND_U * edom.u) | ~fin | np.broadcast_to(R.emp, shp)
+        proved = ok | in_region
+        refuted = np.zeros(shp, bool)
+        errs = np.zeros(shp)
+        cand = point & ~proved
+        if cand.any():
+            memo2 = {}
+            env2 = env_for(pdom)
+            # on a branch cut (a zero component, or the variable itself zero) the value of either side is accepted
+            if spec[0] == "axis" and spec[2] == 0:
+                variants = [(0.0, None), (-0.0, None), (0.0, 0.0), (0.0, -0.0), (-0.0, 0.0), (-0.0, -0.0)]
+            else:
+                variants = [(None, None), (None, 0.0), (None, -0.0)]
+            comps = []
+            for t in (tre, tim):
+                if t is not None:
+                    comps.append(np.broadcast_to(evaluate(t, env2, pdom, memo2).lo, shp).astype(LD))
+            best = np.full(shp, np.inf)
+            for sd, ts in variants:
+                ref = ref_at(lo, sd, ts)
+                worst = np.zeros(shp)
+                for ci, pv in enumerate(comps):
+                    tv = (np.real(ref) if ci == 0 else np.imag(ref)) if np.iscomplexobj(ref) else ref
+                    with np.errstate(all="ignore"):
+                        ulp = np.maximum(np.abs(tv), LD(fmt.smallest)) * LD(2.0 ** (1 - fmt.p))
+                        e = np.abs(pv - tv) / ulp
+                        e = np.where(np.isnan(tv), 0.0, np.where(np.isnan(e), np.inf, e))
+                        e = np.where(np.isinf(pv) & np.isinf(tv) & (pv == tv), 0.0, e)
+                        e = np.where((np.abs(tv) >= L) & np.isinf(pv), 0.0, e)
+                        e = np.where((tv == 0) & (np.abs(pv) <= LD(fmt.tiny) * 16), 0.0, e)
+                    worst = np.maximum(worst, e.astype(np.float64))
+                best = np.minimum(best, worst)
+            worst = best
+            errs = worst
+            okp = cand & (worst <= POINT_ULP)
+            proved = proved | okp
+            refuted = cand & ~okp
+            counters["points_checked"] += int(cand.sum())
+
+        def describe(i):
+            base = f"{var} in [{float(lo[i]).hex()}, {float(hi[i]).hex()}] (= {float(lo[i])!r}) on the {line}"
+            b = ", ".join(f"{float(t[i]) / edom.u:.0f}u" for t in tots)
+            if point[i]:
+                return f"{base}: error {errs[i]:.1f} ULP against the long-double reference; forward error bounds (re, im) {b}"
+            return f"{base}: forward error bounds (re, im) {b}"
+
+        return proved, refuted, describe
+
+    return judge
+
+
 def initial_boxes(fmt):
     oi = fmt.ord_inf
     one = int(fmt.to_ord(fmt.ft(1.0)))
@@ -219,7 +332,7 @@ def _analyse(root, ctype, name, line, tier):
     ftype = {"complex64": "float32", "complex128": "float64"}[ctype]
     fmt = Fmt(ftype)
     dom = Domain(fmt)
-    res = dict(refuted=[], ok=None, error=None, stats=dict(boxes=0, proved=0, points=0, levels=0), regions={})
+    res = dict(refuted=[], ok=None, error=None, stats=dict(boxes=0, proved=0, points=0, levels=0), regions={}, err_refuted=[], err_ok=None, err_error=None)
     try:
         tre, tim, var = line_terms(fa, name, ctype, line)
         judge = make_judge(name, line, tre, tim, var, fmt, dom, DELTA[tier])
@@ -250,9 +363,26 @@ def _analyse(root, ctype, name, line, tier):
             return res
         res["ok"] = f"{out.proved} boxes ({out.proved_points} single points) proved, {out.levels} refinement levels, bound 2**{int(np.log2(DELTA[tier]))}"
         res["stats"] = dict(boxes=out.evaluated, proved=out.proved, points=out.proved_points, levels=out.levels)
+        # R1.2 forward error analysis (the named regions are reported by R1.1 and skipped here)
+        counters = dict(points_checked=0)
+        ej = make_err_judge(name, line, tre, tim, var, fmt, known_region, counters)
+        try:
+            eout = refine(lo0, hi0, ej, max_boxes=4_000_000, probe_limit=1_000_000, probe_dims=1)
+        except Budget as e:
+            eout = e.outcome
+            if not eout.refuted:
+                res["err_error"] = f"{name}[{ctype}] {line}: forward error bound of {ERR_BOUND_U:.0f}u not provable and no single point exceeds {POINT_ULP:.0f} ULP so far ({e})"
+                return res
+        res["err_refuted"] = [(str(lo_), info) for lo_, hi_, info in eout.refuted[:3]]
+        res["err_ok"] = f"{eout.proved} boxes proved ({counters['points_checked']} single points by exact evaluation), {eout.levels} refinement levels"
     except (Unsupported, Unmodelled) as e:
         res["error"] = f"{name}[{ctype}] {line}: {e}"
     return res
+
+
+def _known_keys():
+    from sa.core import load_known
+    return {(k["rule"], k["key"]) for k in load_known() if k.get("property") == "C01" and k.get("status") == "known"}
 
 
 def run(repo, tier):
@@ -260,6 +390,7 @@ def run(repo, tier):
 
     r = Report("C01", tier, repo, level="other", design_ref="DESIGN.md §3/C01")
     r.rule("R1.1", "on the real axis, the imaginary axis and both diagonals, for every float of the component type: no spurious NaN/inf, correct sign and branch-cut side, relative error per component below the coarse bound", floor=100)
+    r.rule("R1.2", f"forward error analysis on the same lines: the rounding-error bound of each component is at most {ERR_BOUND_U:.0f}u on every box (u = 2**-p) or, at single points where it is not provable, the exactly evaluated result is within {POINT_ULP:.0f} ULP of the reference (inputs inside the regions reported by R1.1 excepted)", floor=100)
     if np.finfo(LD).maxexp <= 1024:
         raise AnalysisError("numpy.longdouble is not an extended format on this machine; the reference ranges for complex128 would overflow")
     load_package(repo.root)
@@ -276,10 +407,12 @@ def run(repo, tier):
         results = [_analyse(*t) for t in tasks]
     total = dict(boxes=0, proved=0, points=0)
     regional = {}
+    pending_errors = []
     for (root, ctype, name, line, _), res in zip(tasks, results):
         where = f"functional_algorithms/{REL}::{name}"
         if res["error"] and not res["refuted"]:
-            raise AnalysisError(res["error"])
+            pending_errors.append(res["error"])
+            continue
         key = f"{name}[{ctype}] {line}"
         for rg, (cnt, example) in res["regions"].items():
             ent = regional.setdefault((name, ctype, rg), dict(lines=[], count=0, example=example, where=where))
@@ -292,10 +425,21 @@ def run(repo, tier):
             r.ob("R1.1", key, True, res["ok"], where)
         for k in ("boxes", "proved", "points"):
             total[k] += res["stats"][k]
+        if res.get("err_error") and not res.get("err_refuted"):
+            pending_errors.append(res["err_error"])
+            continue
+        if res.get("err_refuted"):
+            for lo_, info in res["err_refuted"]:
+                r.ob("R1.2", key + f" forward error at {lo_}", False, info, where)
+        elif res.get("err_ok"):
+            r.ob("R1.2", key + " forward error", True, res["err_ok"], where)
     # failures inside a named input region are one finding per (function, type, region), whatever lines show them
     for (name, ctype, rg), ent in sorted(regional.items()):
         r.ob("R1.1", f"{name}[{ctype}] {rg}", False,
              f"{ent['count']} box(es)/point(s) on {len(ent['lines'])} line(s) ({', '.join(sorted(ent['lines'])[:6])}{' ...' if len(ent['lines']) > 6 else ''}) are wrong beyond the coarse bound, e.g. {ent['example']}", ent["where"])
+    # an inconclusive task matters only when nothing was refuted: a refutation is reported as such
+    if pending_errors and not any(not o["ok"] and (o["rule"], o["key"]) not in _known_keys() for o in r.obligations):
+        raise AnalysisError(pending_errors[0])
     r.info("R1.1", f"boxes evaluated {total['boxes']}, proved {total['proved']} (single points {total['points']}); {len(tasks)} (type, function, line) tasks, {jobs} worker process(es)")
     for k, why in UNDECIDED.items():
         r.info("R1.1", f"not decided: {k} - {why}")
